@@ -63,6 +63,13 @@ def gen_connect_bad(rng, t):
         for st in ([ev_data(get_resp(0xEDF0, [0x96, 0x00]))], [ev_data(done_resp(le(other, 2)))],
                    [ev_data(ping_resp()), ev_data(done_resp(le(other, 2)))], [ev_data(b":7F0ED00")]):
             out.append(ACase("connect-stale", ["connect"], connect_react(dev), {"dev": dev, "mode": "answers"}, stale=st))
+        # only asynchronous frames after the ping, never a ping answer: no object, however many there are
+        for nasync in (1, 15, 16, 17, 20, 31, 40):
+            out.append(ACase("connect-async-only", ["connect"], [[ev_data(b"".join(async_frame(rng) for _ in range(nasync)))], [ev_data(d)]],
+                             {"dev": dev, "mode": "silent-ping"}))
+        # device-id answers with a correct check byte but no / one payload byte
+        for short in (frame(1, []), frame(1, [dev & 0xFF]), frame(1, [0x00])):
+            out.append(ACase("connect-malformed-id", ["connect"], [[ev_data(ping_resp())], [ev_data(short)]], {"dev": dev, "mode": "malformed-id"}))
         # a leading async frame before the answers is fine
         out.append(ACase("connect-async", ["connect"], [[ev_data(async_frame(rng) + ping_resp())], [ev_data(async_frame(rng) + d)]], {"dev": dev, "mode": "answers"}))
     return out
@@ -118,6 +125,11 @@ def raw_values(rng, reg, t, thorough):
                 v |= rng.next() & ~sum(1 << b for b in keys) & 0xFFFFFFFF
             vals.append(le(v, rng.choice([2, 4, 8]) if v < 65536 else 4 if v < 2 ** 32 else 8))
         vals.append(le(2 ** 64 - 1, 8)); vals.append(le(0, 1)); vals.append(le(2 ** 40 + 1, 8))
+        # short answers whose top bit is set (no sign extension into the documented bits), every width
+        for w in (1, 2, 4):
+            vals.append(le(1 << (8 * w - 1), w)); vals.append(le((1 << (8 * w - 1)) | 0x21, w)); vals.append(le((1 << (8 * w)) - 1, w))
+        for w in (3, 5, 6, 7):
+            vals.append(le(rng.next() & ((1 << (8 * w)) - 1) | (1 << (8 * w - 1)), w))
     return vals
 
 
